@@ -239,6 +239,7 @@ def run_c02(run: core.Run, n: int) -> None:
         run_d4a(run, "C02", stats)
         run_g3(run, "C02", stats)
         run_pv3(run, stats)
+        run_keyword_atoms(run, stats)
     for i in range(n // 6):
         for e in complement_exprs(run.rng):
             if e.kind in ("and", "or"):
@@ -332,6 +333,44 @@ def run_g3(run: core.Run, prop: str, stats) -> None:
                                  {"op": "eval", "text": text, "env": {k: (sorted(v) if isinstance(v, set) else v) for k, v in env.items()}})
                 f.family = mk.known_family([text], env)
                 run.fail(f)
+
+
+KEYWORD_ATOMS = ['python_version < "empty>"', 'python_full_version < "empty>"', 'python_full_version == "=3.8"', 'python_version == "=3.9"',
+                 '"empty>" > python_version']
+
+
+def run_keyword_atoms(run: core.Run, stats) -> None:
+    """atoms whose operator + operand spell something else than a comparison (`<` + `empty>` = the `<empty>` keyword, `==` +
+    `=3.8` = `===3.8`): fixed defects D39, D40.  Their specifier view is not an interval set, so they are outside the model;
+    `&` / `|` with every partner is judged on the implementation alone, by the operands' own truth values"""
+    partners = ['python_version >= "99"', 'python_version < "99"', 'python_version >= "3.9"', 'python_full_version < "3.0"',
+                'python_full_version >= "3.9"', 'python_version != "3.8"', 'os_name == "nt"'] + KEYWORD_ATOMS
+    envs = []
+    for full in ("3.8", "3.8.0", "3.9.1", "3.10.0", "2.7.18"):
+        X, Y = (full.split(".") + ["0"])[:2]
+        envs.append({"python_full_version": full, "python_version": f"{X}.{Y}", "os_name": "posix", "platform_release": "5.10",
+                     "implementation_version": "3.9.1", "platform_version": "#1", "extra": set(), "sys_platform": "linux",
+                     "platform_machine": "x86_64", "platform_system": "Linux", "implementation_name": "cpython",
+                     "platform_python_implementation": "CPython"})
+    for a, b in itertools.product(KEYWORD_ATOMS, partners):
+        for x, y in ((a, b), (b, a)):
+            for kind in ("and", "or"):
+                e = E(kind, E("leaf", x), E("leaf", y))
+                out, m = out_of(e.run)
+                stats["oracle"] += 1
+                rep = {"op": "expr", "expr": e.to_json()}
+                if m is None:
+                    run.fail(core.Failure("expr|" + e.show(), f"{e.show()} raised ({out})", rep))
+                    continue
+                px, py = mk.parse_marker(x), mk.parse_marker(y)
+                for env in envs:
+                    vx, vy = ev(px, env), ev(py, env)
+                    want = (vx and vy) if kind == "and" else (vx or vy)
+                    if isinstance(vx, bool) and isinstance(vy, bool) and ev(m, env) != want:
+                        run.fail(core.Failure("expr|" + e.show() + "|" + enc_env(env), f"{e.show()} = {m!r} evaluates to {ev(m, env)} "
+                                              f"where the operands give {want}",
+                                              dict(rep, env={k: (sorted(v) if isinstance(v, set) else v) for k, v in env.items()})))
+                        break
 
 
 def run_pv3(run: core.Run, stats) -> None:
